@@ -1,5 +1,6 @@
 import Clikit.Drv.Util
 import Clikit.Model.Spinner
+import Clikit.Model.SpinnerBuilt
 /-!
 Driver entries of the spinner model:
 `c19.run`    {cfg, body, sched, preempt, fuel, old} -> explicit schedule executed (the given one followed by
@@ -50,15 +51,38 @@ def jChoice : Choice → Json
   | .spin => .str "S"
   | .tick d => .arr #[.str "T", jNat d]
 
+def capsOf (j : Json) : R Caps := do
+  return { ansi := ← fBool j "ansi", verbosity := ← fNat j "verbosity", quiet := ← fBool j "quiet" }
+
+/-- `"on"`: what the indicator is built on - `{"io": false, "out": caps}` or `{"io": true, "std": caps, "err": caps}` -/
+def builtOf (j : Json) : R Built := do
+  if ← fBool j "io" then return .io (← capsOf (← field j "std")) (← capsOf (← field j "err"))
+  else return .output (← capsOf (← field j "out"))
+
+/-- The configuration of a request.  Without `"on"`: as given (`ansi`, `fmt`).  With `"on"` the model itself decides
+which output the frames are drawn on (hence which way of drawing is used) and, when `"fmt"` is null (no format given
+to the constructor), which format the component chooses (`Spinner.cfgBuilt`). -/
 def cfgOf (j : Json) (body : List BodyOp) : R Cfg := do
   let vals ← (← fArr j "values").toList.mapM asChars
-  let fmt ← (← fArr j "fmt").toList.mapM segOf
+  let fmt ← match fOpt j "fmt" with
+    | none | some .null => pure none
+    | some (.arr a) => do pure (some (← a.toList.mapM segOf))
+    | some _ => throw "field fmt: array or null expected"
   -- the spinner's sleep period is read from the source (Gen/C19.lean) unless the request overrides it
   let period ← match fOpt j "period" with
     | none => pure Clikit.Gen.C19.spinPeriodMs
     | some v => asNat v
-  return { ansi := ← fBool j "ansi", interval := ← fNat j "interval", period := period,
-           values := vals, fmt := fmt, startMsg := ← fChars j "start", endMsg := ← fChars j "end", body := body }
+  let base : Cfg := { ansi := ← fBool j "ansi", interval := ← fNat j "interval", period := period,
+                      values := vals, fmt := fmt.getD [], startMsg := ← fChars j "start", endMsg := ← fChars j "end", body := body }
+  match fOpt j "on" with
+  | none | some .null =>
+    match fmt with
+    | some _ => return base
+    | none => throw "fmt null needs \"on\" (what the indicator is built on)"
+  | some o =>
+    match cfgBuilt (← builtOf o) fmt base with
+    | some cfg => return cfg
+    | none => throw "outside the model: the output drawn on is quiet, or verbose without a format (elapsed time)"
 
 def tidName : Tid → String
   | .main => "M"
